@@ -290,63 +290,90 @@ static int modeRun() {
     return 0;
 }
 
+// one replay case; returns true when the real object followed the specification
+static bool replayCase(const J &c, long long caseNo, long long &steps) {
+    World w;
+    w.objs[1].reset(new c3d());
+    std::vector<J> diffs;
+    const J &path = c.at("path");
+    for (size_t i = 0; i < path.a.size(); ++i) {
+        J ev = J::obj();
+        execOp(w, path.a[i], ev); ++steps;
+    }
+    const J &op = c.at("op");
+    long long o = op.geti("o", 1);
+    J pre = w.objs.count(o) ? verif::abs(*w.objs[o]) : J::obj();
+    J ev = J::obj();
+    execOp(w, op, ev); ++steps;
+    J post = w.objs.count(o) ? verif::abs(*w.objs[o]) : J::obj();
+    const std::string out = ev.at("out").s;
+    if (c.has("out") && out != c.at("out").s)
+        diffs.push_back(J::obj().set("k", "out").set("path", "out").set("exp", c.at("out")).set("act", J(out)));
+    if (c.has("post")) {
+        std::vector<J> d; jdiff(c.at("post"), post, "", d, 6);
+        for (size_t i = 0; i < d.size(); ++i) { d[i].set("k", "post"); diffs.push_back(d[i]); }
+    }
+    if (c.has("res") && ev.has("res")) {
+        std::vector<J> d; jdiff(c.at("res"), ev.at("res"), "res", d, 4);
+        for (size_t i = 0; i < d.size(); ++i) { d[i].set("k", "res"); diffs.push_back(d[i]); }
+    } else if (c.has("res") && out == "ok")
+        diffs.push_back(J::obj().set("k", "res").set("path", "res").set("exp", c.at("res")).set("act", "<none>"));
+    if (ev.has("sets") && c.has("sets")) {
+        std::vector<J> d; jdiff(c.at("sets"), ev.at("sets"), "sets", d, 4);
+        for (size_t i = 0; i < d.size(); ++i) { d[i].set("k", "sets"); diffs.push_back(d[i]); }
+    }
+    // C10, independent of the specification: a call that threw must leave the object as it was
+    if (out != "ok" && op.at("op").s != "Load") {
+        std::vector<J> d; jdiff(pre, post, "", d, 4);
+        std::vector<J> d2; jdiff(post, pre, "", d2, 4);
+        for (size_t i = 0; i < d2.size(); ++i) d.push_back(d2[i]);
+        for (size_t i = 0; i < d.size() && i < 4; ++i) { d[i].set("k", "unchanged"); diffs.push_back(d[i]); }
+    }
+    if (diffs.empty()) return true;
+    J r = J::obj().set("id", c.geti("id", caseNo)).set("fail", J(1)).set("actout", J(out)).set("len", J(path.a.size() + 1));
+    J da = J::arr(); for (size_t i = 0; i < diffs.size(); ++i) da.push(diffs[i]);
+    r.set("diffs", da).set("path", path).set("op", op);
+    std::string s; r.dump(s); s += '\n';
+    ssize_t wr = write(1, s.data(), s.size()); (void)wr;
+    return false;
+}
+
+// Every case runs in a forked child: a crash of the library (signal, sanitizer abort) is a result
+// of that case ("crash"), not the end of the replay.
 static int modeReplay() {
     std::string line;
-    long long cases = 0, fails = 0, steps = 0;
+    long long cases = 0, fails = 0, crashes = 0;
     while (std::getline(std::cin, line)) {
+        if (line.size() > 1 && line[0] == '"' && line[1] == '{') line = jparse(line).s;   // TLC's PrintT quotes the JSON text
         if (line.empty() || line[0] != '{') continue;
-        J c = jparse(line);
         ++cases;
-        World w;
-        w.objs[1].reset(new c3d());
-        std::vector<J> diffs;
-        const J &path = c.at("path");
-        bool inited = false;
-        for (size_t i = 0; i < path.a.size(); ++i) {
-            J ev = J::obj();
-            execOp(w, path.a[i], ev); ++steps; inited = true;
+        pid_t pid = fork();
+        if (pid == 0) {
+            alarm(20);
+            long long steps = 0;
+            bool ok = true;
+            try { J c = jparse(line); ok = replayCase(c, cases, steps); }
+            catch (const std::exception &e) { std::cerr << "harness error: " << e.what() << std::endl; _exit(3); }
+            _exit(ok ? 0 : 1);
         }
-        (void)inited;
-        const J &op = c.at("op");
-        long long o = op.geti("o", 1);
-        J pre = w.objs.count(o) ? verif::abs(*w.objs[o]) : J::obj();
-        J ev = J::obj();
-        execOp(w, op, ev); ++steps;
-        J post = w.objs.count(o) ? verif::abs(*w.objs[o]) : J::obj();
-        const std::string out = ev.at("out").s;
-        if (c.has("out") && out != c.at("out").s)
-            diffs.push_back(J::obj().set("k", "out").set("path", "out").set("exp", c.at("out")).set("act", J(out)));
-        if (c.has("post")) {
-            std::vector<J> d; jdiff(c.at("post"), post, "", d, 6);
-            for (size_t i = 0; i < d.size(); ++i) { d[i].set("k", "post"); diffs.push_back(d[i]); }
-        }
-        if (c.has("res") && ev.has("res")) {
-            std::vector<J> d; jdiff(c.at("res"), ev.at("res"), "res", d, 4);
-            for (size_t i = 0; i < d.size(); ++i) { d[i].set("k", "res"); diffs.push_back(d[i]); }
-        } else if (c.has("res") && out == "ok")
-            diffs.push_back(J::obj().set("k", "res").set("path", "res").set("exp", c.at("res")).set("act", "<none>"));
-        if (ev.has("sets") && c.has("sets")) {
-            std::vector<J> d; jdiff(c.at("sets"), ev.at("sets"), "sets", d, 4);
-            for (size_t i = 0; i < d.size(); ++i) { d[i].set("k", "sets"); diffs.push_back(d[i]); }
-        }
-        // C10, independent of the specification: a call that threw must leave the object as it was
-        if (out != "ok" && op.at("op").s != "Load") {
-            std::vector<J> d; jdiff(pre, post, "", d, 4);
-            std::vector<J> d2; jdiff(post, pre, "", d2, 4);
-            for (size_t i = 0; i < d2.size(); ++i) d.push_back(d2[i]);
-            for (size_t i = 0; i < d.size() && i < 4; ++i) { d[i].set("k", "unchanged"); diffs.push_back(d[i]); }
-        }
-        if (!diffs.empty()) {
-            ++fails;
-            J r = J::obj().set("id", c.geti("id", cases)).set("fail", J(1)).set("actout", J(out)).set("len", J(path.a.size() + 1));
-            J da = J::arr(); for (size_t i = 0; i < diffs.size(); ++i) da.push(diffs[i]);
-            r.set("diffs", da).set("path", path).set("op", op);
-            std::string s; r.dump(s); s += '\n'; fwrite(s.data(), 1, s.size(), stdout);
-        }
+        int st = 0;
+        waitpid(pid, &st, 0);
+        if (WIFEXITED(st) && WEXITSTATUS(st) == 0) continue;
+        ++fails;
+        if (WIFEXITED(st) && WEXITSTATUS(st) == 1) continue;
+        if (WIFEXITED(st) && WEXITSTATUS(st) == 3) { std::cerr << "harness error on case " << cases << std::endl; return 3; }
+        ++crashes;
+        J c = jparse(line);
+        J r = J::obj().set("id", c.geti("id", cases)).set("fail", J(1)).set("len", J(c.at("path").a.size() + 1));
+        J d = J::obj().set("k", "crash").set("path", "crash").set("exp", "no crash")
+                      .set("act", WIFSIGNALED(st) ? J(std::string("signal ") + std::to_string(WTERMSIG(st))) : J(std::string("exit ") + std::to_string(WEXITSTATUS(st))));
+        r.set("diffs", J::arr().push(d)).set("path", c.at("path")).set("op", c.at("op"));
+        std::string s; r.dump(s); s += '\n';
+        ssize_t wr = write(1, s.data(), s.size()); (void)wr;
     }
-    J r = J::obj().set("summary", J(1)).set("cases", J(cases)).set("fail", J(fails)).set("steps", J(steps));
-    std::string s; r.dump(s); s += '\n'; fwrite(s.data(), 1, s.size(), stdout);
-    fflush(stdout);
+    J r = J::obj().set("summary", J(1)).set("cases", J(cases)).set("fail", J(fails)).set("crashes", J(crashes));
+    std::string s; r.dump(s); s += '\n';
+    ssize_t wr = write(1, s.data(), s.size()); (void)wr;
     return 0;
 }
 
